@@ -344,9 +344,11 @@ fn emit_binary_history(sink: &mut Sink, r: &mut Rng, scratch: &str, bin: &str, s
         }
         let before = p.history();
         let whole = p.summary(now);
-        let op = if first && sink.n == 0 { let _ = r.below(10); 4 } else { r.below(10) };
+        let op = if first && sink.n == 0 { let _ = r.below(11); 4 } else { r.below(11) };
+        let (since_txt, since_secs): (&str, u64) = *r.fork().pick(&[("1h", 3_600u64), ("2d", 172_800), ("400d", 34_560_000), ("90s", 90)]);
         let narrowed: &[&str] = *r.fork().pick(&[&["--exclude", "src/a.rs"][..], &["--ext", "rs"][..], &["src/a.rs", "src/b.rs"][..], &["--include", "src/b.rs"][..]]);
         let (label, force, dry, restricted): (&str, bool, bool, bool) = match op {
+            10 => ("stats-since", false, false, false),
             9 => ("check-narrowed", false, false, true),
             8 => ("check-auto-ff", false, false, false),
             0 | 1 => ("snapshot", false, false, false),
@@ -368,6 +370,9 @@ fn emit_binary_history(sink: &mut Sink, r: &mut Rng, scratch: &str, bin: &str, s
             "stats" => vec!["stats", "trend", "--no-sloc-cache"],
             _ => vec!["check", "--no-sloc-cache", "--no-config"],
         };
+        if label == "stats-since" {
+            argv = vec!["stats", "trend", "--no-sloc-cache", "--format", "json", "--since", since_txt];
+        }
         if label == "check-narrowed" {
             // a passing check of a part of the project: other targets, --include, --exclude, --ext
             argv = vec!["check", "--no-sloc-cache"];
@@ -390,6 +395,26 @@ fn emit_binary_history(sink: &mut Sink, r: &mut Rng, scratch: &str, bin: &str, s
         let mut pred: Option<String> = None;
         if err.contains("panicked at") || rc == 101 {
             pred = Some(format!("{label} panicked"));
+        }
+        if label == "stats-since" && rc == 0 {
+            // the delta is taken against the newest entry at or before now - D; none: no delta at all
+            let cutoff = now.saturating_sub(since_secs);
+            let sel = before.iter().filter(|e| e.timestamp <= cutoff).max_by_key(|e| e.timestamp);
+            let v: serde_json::Value = serde_json::from_str(&out).unwrap_or(serde_json::Value::Null);
+            let shown = v.get("trend").filter(|t| !t.is_null());
+            match (sel, shown, whole) {
+                (None, Some(t), _) => pred = Some(format!("`stats trend --since {since_txt}`: no entry is at or before now - {since_txt}, yet a delta is shown: {t}")),
+                (Some(e), None, _) => pred = Some(format!("`stats trend --since {since_txt}`: the entry of {} is at or before now - {since_txt}, but no delta is shown", e.timestamp)),
+                (Some(e), Some(t), Some(w)) => {
+                    let tie = before.iter().filter(|x| x.timestamp == e.timestamp).count() > 1;
+                    let want = (w.code as i64 - e.code as i64, w.lines as i64 - e.total_lines as i64, w.files as i64 - e.total_files as i64);
+                    let got = (t["code"].as_i64().unwrap_or(i64::MIN), t["lines"].as_i64().unwrap_or(i64::MIN), t["files"].as_i64().unwrap_or(i64::MIN));
+                    if !tie && got != want {
+                        pred = Some(format!("`stats trend --since {since_txt}`: delta (code, lines, files) {got:?}, current totals minus the entry of {} give {want:?}", e.timestamp));
+                    }
+                }
+                _ => {}
+            }
         }
         if label == "check-narrowed" && after != before {
             pred = Some(format!("`check {}` recorded an auto-snapshot of the part it looked at: {:?}, the whole project is {whole:?}", narrowed.join(" "), appended));
